@@ -9,7 +9,7 @@ CONSTANTS
   TimeoutTicks = 2
   MaxTicks = 3
   Weaken = "none"
-INVARIANTS ObsFidelity ObsNoSilentCorruption ObsStopPrompt ObsDeleteExact ObsKeepIntact
+INVARIANTS ObsFidelity ObsNoSilentCorruption ObsStopPrompt ObsDeleteExact ObsStopDelAgreed ObsKeepIntact
 CONSTRAINT HW
 POSTCONDITION Accepted
 CHECK_DEADLOCK FALSE
